@@ -106,6 +106,18 @@ impl Iterator for FlopExhaustiveEvaluatorIterator {
     type Item = Showdown;
 
     fn next(&mut self) -> Option<Showdown> {
+        loop {
+            if let Some(showdown) = self.next_deal()? {
+                return Some(showdown);
+            }
+        }
+    }
+}
+
+impl FlopExhaustiveEvaluatorIterator {
+    // advances by one deal: `None` once the scope is exhausted, `Some(None)`
+    // when the deal is impossible because a card would be used twice.
+    fn next_deal(&mut self) -> Option<Option<Showdown>> {
         if self.current_turn_index >= self.turn_to && self.current_river_index >= self.river_to {
             return None;
         }
@@ -180,21 +192,21 @@ impl Iterator for FlopExhaustiveEvaluatorIterator {
                 self.current_player_indexes[i] = 0;
             }
 
-            return showdown.or_else(|| self.next());
+            return Some(showdown);
         }
 
         if self.current_river_index < 48 {
             self.current_river_index += 1;
             self.current_player_indexes.fill(0);
 
-            return showdown.or_else(|| self.next());
+            return Some(showdown);
         }
 
         self.current_turn_index += 1;
         self.current_river_index = self.current_turn_index + 1;
         self.current_player_indexes.fill(0);
 
-        showdown.or_else(|| self.next())
+        Some(showdown)
     }
 }
 
